@@ -56,3 +56,50 @@ def session(rng, crlf_payloads=True, pubsub=True, damage=True, nsteps=None):
     # nothing of a malformed tail may have been executed
     lines.append("C %d %s" % (nconn + 1, core.hx(gen.enc_cmd([b"GET", b"after-error"]))))
     return lines
+
+
+def parallel_session(rng):
+    """Connections that each own their keys and are served at the same moment: large array replies (LRANGE/MGET/SMEMBERS on a one-member set) pipelined on 4-10 connections at once.  Key sets are disjoint, so every serial order produces the same reply bytes
+    per connection — what each client must receive is exactly its own replies, whole and in order."""
+    nconn = rng.randint(4, 10)
+    lines = ["S 16"]
+    own = {}
+    setup = b""
+    for c in range(1, nconn + 1):
+        lk, zk, sk, k1, k2 = (b"%s:%d" % (t, c) for t in (b"l", b"z", b"s", b"a", b"b"))
+        own[c] = (lk, zk, sk, k1, k2)
+        n = rng.choice([3, 40, 150, 300])
+        elems = [b"%d/%d/" % (c, i) + bytes([97 + (c + i) % 26]) * rng.choice([1, 30, 90, 200]) for i in range(n)]
+        for i in range(0, n, 50):
+            setup += gen.enc_cmd([b"RPUSH", lk] + elems[i:i + 50])
+        # (no sorted sets: score parsing needs the exec engine's float annotations)
+        setup += gen.enc_cmd([b"RPUSH", zk] + [b"m%d-%d" % (c, i) + b"z" * rng.choice([0, 50]) for i in range(rng.choice([2, 60]))])
+        setup += gen.enc_cmd([b"SADD", sk, b"only-%d" % c])
+        setup += gen.enc_cmd([b"MSET", k1, b"v%d" % c * 40, k2, b"w%d\r\n" % c * 10])
+        if len(setup) > 60000:
+            lines.append("C %d %s" % (nconn + 1, core.hx(setup)))
+            setup = b""
+    if setup:
+        lines.append("C %d %s" % (nconn + 1, core.hx(setup)))
+    for _ in range(rng.randint(2, 4)):
+        items = []
+        for c in range(1, nconn + 1):
+            lk, zk, sk, k1, k2 = own[c]
+            payload = b""
+            for _ in range(rng.randint(4, 14)):
+                x = rng.random()
+                if x < 0.5:
+                    payload += gen.enc_cmd([b"LRANGE", lk, b"0", rng.choice([b"-1", b"-1", b"10"])])
+                elif x < 0.65:
+                    payload += gen.enc_cmd([b"LRANGE", zk, rng.choice([b"0", b"1", b"-3"]), b"-1"])
+                elif x < 0.75:
+                    payload += gen.enc_cmd([b"MGET", k1, k2, b"missing:%d" % c, k1])
+                elif x < 0.85:
+                    payload += gen.enc_cmd([b"SMEMBERS", sk])
+                elif x < 0.95:
+                    payload += gen.enc_cmd([b"RPUSH", lk, b"more-%d" % c])
+                else:
+                    payload += gen.enc_cmd([b"GET", k2])
+            items.append("%d:%s" % (c, core.hx(payload)))
+        lines.append("P " + " ".join(items))
+    return lines
